@@ -8,7 +8,8 @@
    "internal error: inconsistency in EscapePath" of escapeString; bang is '!' (33);
    65..90 are 'A'..'Z'. *)
 From Verif.Base Require Import Bytes.
-From Verif.Module Require Import Path Escape EscapeProofs EscapeProofsPath.
+From Verif.Base Require Import Utf8.
+From Verif.Module Require Import Path Escape EscapeProofs EscapeProofsPath EscapeProofsUtf8.
 
 (* ---- the string functions (all strings, no validity assumed) ---------------------------- *)
 
@@ -21,6 +22,23 @@ Theorem C11_unescape_string_image :
   forall e s, unescape_string e = Some s -> escape_string s = EOk e.
 Proof. exact unescape_string_image. Qed.
 Print Assumptions C11_unescape_string_image.
+
+(* the model works on bytes, the Go loops on runes: the literal rune-level transcription
+   (EscapeProofsUtf8.v: the same two loops over Utf8.runes s, Go's range-over-string with
+   U+FFFD for invalid bytes) is the same function, on every string *)
+Theorem C11_escape_string_runes_eq :
+  forall s,
+    (let rs := runes s in
+     if existsb esc_bad rs then EErr EInternal
+     else if negb (existsb is_upper rs) then EOk s
+     else EOk (flat_map esc_byte rs)) = escape_string s.
+Proof. exact escape_string_runes_eq. Qed.
+Print Assumptions C11_escape_string_runes_eq.
+
+Theorem C11_unescape_string_runes_eq :
+  forall e, unescape_from false (runes e) = unescape_string e.
+Proof. exact unescape_string_runes_eq. Qed.
+Print Assumptions C11_unescape_string_runes_eq.
 
 (* ---- module paths ------------------------------------------------------------------------ *)
 
